@@ -83,8 +83,8 @@ class Family:
                     s, d = ROLE[r]
                     ops_isa.append(_regpat(isa, s, d))
                     ops_mm.append(_regpat(isa, False, False))
-                else:  # 'M' memory source, 'W' memory destination
-                    ops_isa.append(_mempat(isa, r == "M", r == "W"))
+                else:  # 'M' memory source, 'W' memory destination, 'X' both
+                    ops_isa.append(_mempat(isa, r in "MX", r in "WX"))
                     ops_mm.append(_mempat(isa, False, False))
             if kind == "ldc":
                 # composed: the model (and the ISA db) only know the register form
@@ -125,6 +125,7 @@ class Family:
         add("tie", "reg", "sb" if isa == "x86" else "bs", fixed_lat=self.mn["opbs"]["lat"])
         add("ld", "mem", "Md" if isa == "x86" else "dM")
         add("st", "mem", "sW")
+        add("rmw", "mem", "sX")   # read-modify-write of a memory location
         add("ldc", "ldc", "Md" if isa == "x86" else "dM")
         add("ldcb", "ldc", "Mb" if isa == "x86" else "bM")
         self.load_latency = 4.0
@@ -203,8 +204,11 @@ class Family:
     def ri_mem(self, mn, data, base, mode, spell=None):
         isa, d = self.isa, self.mn[mn]
         sp = spell or mn
-        is_store = mn == "st"
-        disp = 1000 if is_store else 8  # never the same location, even after write-back bumps
+        is_store = mn in ("st", "rmw")
+        is_rmw = mn == "rmw"
+        # never the same location, even after write-back bumps - except that an rmw reads and
+        # writes its own location
+        disp = (2000 if is_rmw else 1000) if is_store else 8
         if isa == "x86":
             m = "%d(%%%s)" % (disp, base)
             text = "%s %s, %s" % (sp, rtext(isa, data), m) if is_store else \
@@ -247,7 +251,7 @@ class Family:
         else:
             ref = RD.MemRef(rb, None, 1, disp, text=m if is_store else None)
         return RD.RI(text, reads, writes, wb=wb, lat=lat, lat_exec=lat_exec,
-                     load_node=load_node, tag=mn, loads=[] if is_store else [ref],
+                     load_node=load_node, tag=mn, loads=[ref] if (is_rmw or not is_store) else [],
                      stores=[ref] if is_store else [], changes=changes,
                      post_changes=post_changes)
 
@@ -257,7 +261,7 @@ class Family:
 _PARSE_CACHE = {}
 
 
-def parsed_kernel(isa, texts, start_line=0, via_parse_file=False):
+def parsed_kernel(isa, texts, start_line=0, via_parse_file=False, line_numbers=None):
     """Kernel as the real parser produces it.  Each distinct line is parsed once by the real
     parse_line and the (pickled) result is re-instantiated per kernel - the parsers are
     deterministic functions of the line (C09/C10 own them); kernels of length 1 go through
@@ -265,7 +269,11 @@ def parsed_kernel(isa, texts, start_line=0, via_parse_file=False):
     import pickle
     from mc import drive
     parser = drive.get_parser(isa)
-    if via_parse_file or len(texts) == 1:
+    if line_numbers is not None:
+        # increasing but not consecutive numbers: what parse_file yields for a region with empty
+        # lines in it, or --lines for several pieces of a file (C11 owns that numbering)
+        assert len(line_numbers) == len(texts) and sorted(set(line_numbers)) == list(line_numbers)
+    if (via_parse_file or len(texts) == 1) and line_numbers is None:
         return parser, parser.parse_file("\n".join(texts) + "\n", start_line)
     kernel = []
     for i, t in enumerate(texts):
@@ -274,7 +282,7 @@ def parsed_kernel(isa, texts, start_line=0, via_parse_file=False):
             b = pickle.dumps(parser.parse_line(t, 0))
             _PARSE_CACHE[(isa, t)] = b
         f = pickle.loads(b)
-        f.line_number = start_line + i + 1
+        f.line_number = start_line + i + 1 if line_numbers is None else line_numbers[i]
         kernel.append(f)
     return parser, kernel
 
@@ -288,12 +296,13 @@ def warm_parse_cache(isa, texts):
             _PARSE_CACHE[(isa, t)] = pickle.dumps(parser.parse_line(t, 0))
 
 
-def observe(fam, ris, flags, timeout=-1, start_line=0, full=True):
+def observe(fam, ris, flags, timeout=-1, start_line=0, full=True, line_numbers=None):
     """Run the real analysis on the kernel made of the RIs' texts.  full=False builds only the
     dependency graph (create_DG) without the loop-carried search of the constructor."""
     from mc import drive
     mm, sem = fam.load()
-    parser, kernel = parsed_kernel(fam.isa, [r.text for r in ris], start_line)
+    parser, kernel = parsed_kernel(fam.isa, [r.text for r in ris], start_line,
+                                   line_numbers=line_numbers)
     sem.add_semantics(kernel)
     if full:
         g = drive.KernelDG(kernel, parser, mm, sem, timeout=timeout, flag_dependencies=flags)
